@@ -119,7 +119,13 @@ def handle (line : String) : String :=
                       | _, _ => false
                     let mres := match m with | some (c, _) => toString c.length | none => "err"
                     let sres := match s with | some (c, _) => toString c.length | none => "err"
-                    s!"model={if meq then "eq" else "ne"} spec={if sok then "ok" else "fail"} mres={mres} sres={sres} gran={g}" ++
+                    -- hypothesis of the whole-slot theorems of Props/C09_Data.lean on this case; under it model slot = spec slot
+                    let pre : Bool := dataSlotOKb typ w pack (modelCharsets ops).length g lg turn stmts
+                    let thm : Bool := !pre || (match m, s with
+                      | none, none => true
+                      | some (mc, me), some (sc, se) => me == se && (unitsOf g turn mc == some sc)
+                      | _, _ => false)
+                    s!"model={if meq then "eq" else "ne"} spec={if sok then "ok" else "fail"} mres={mres} sres={sres} gran={g} pre={if pre then 1 else 0} thm={if thm then "ok" else "BROKEN"}" ++
                       (if meq then "" else " mout=" ++ (match m with | some (c, _) => C09.showCells c | none => "ERR")) ++
                       (if sok then "" else " sout=" ++ (match s with | some (c, _) => showW c | none => "ERR"))
           | [] => "bad-request nstmt"
